@@ -146,3 +146,163 @@ Definition chk_slot (c : (nat * nat * nat * bool * bool) * (nat * bool * bool) *
   let sid := if foreign then PS "sid of the other instance" else PS "sid" in
   let t := mint cfg' (mclass_of m) (PS "n") (PS "rnd") sid (PS "99") in
   option_eqb str_eqb (slot_client cfg (fun _ => false) [(PS "sid", client)] (slot_of s) t) observed.
+
+(* ================================================================== REQUESTS IN FLIGHT
+   The endpoint objects that resolve tokens (userinfo, introspection, token_revocation, token) are the shared,
+   long-lived instances of the server; a host that serves more than one request at a time calls, per request,
+   parse_request, process_request and do_response, and the calls that belong to different requests interleave
+   freely.  What an endpoint answers is modelled as a state-passing machine: every call gets and returns the
+   state of the endpoint object (and of everything the endpoints share: session manager, handlers).  The faithful
+   model of the code (tep_model) has the one-point state: parse_request resolves the value the request carries
+   (bearer credential at userinfo, post_parse_request of the token endpoint), process_request resolves the value
+   the request carries ONCE MORE, nothing is kept between the calls.  The session an answer stands for is
+   therefore a function of the presented value alone (tanswer1).  No proofs here; tied to the code by the
+   flights of harness/drv_C04.py (schedules run on the real endpoints). *)
+Record sess := mkSess { s_id : nat; s_user : pystr; s_client : pystr }.
+(* the session a value resolves to at a slot; db: session id -> session *)
+Definition slot_session {A : Type} (cfg : hconf) (expired : pystr -> bool) (db : list (pystr * A)) (s : slot) (t : term) : option A :=
+  match slot_resolve cfg expired s t with
+  | TOk (Some sid) => assoc sid db
+  | _ => None
+  end.
+(* which class the class-agnostic lookup found (the class of the token object the value stands for) *)
+Definition generic_class (cfg : hconf) (expired : pystr -> bool) (t : term) : option mclass :=
+  if is_ok (handler_info cfg expired KCode t) then Some (MTok KCode)
+  else if is_ok (handler_info cfg expired KAccess t) then Some (MTok KAccess)
+  else if is_ok (handler_info cfg expired KRefresh t) then Some (MTok KRefresh)
+  else if is_ok (idt_info (h_idt cfg) expired t) then Some MIdToken
+  else None.
+
+Record prov := mkProv { p_cfg : hconf; p_expired : pystr -> bool; p_db : list (pystr * sess) }.
+Inductive tep := EpUserinfo | EpIntrospect | EpRevoke | EpRefresh | EpCode.
+Definition ep_slot (e : tep) : slot :=
+  match e with EpUserinfo => SUserinfo | EpIntrospect | EpRevoke => SGeneric | EpRefresh => SRefresh | EpCode => SCode end.
+(* one request: the endpoint, the value it presents, the client its own credential (secret) authenticates *)
+Record treq := mkTreq { r_ep : tep; r_tok : term; r_by : pystr }.
+Inductive tanswer := TRefused | TSession (s : sess).
+
+(* classes an endpoint acts on after the class-agnostic lookup: introspection reports access and refresh tokens,
+   revocation takes codes, access and refresh tokens *)
+Definition ep_class_ok (P : prov) (r : treq) : bool :=
+  match r_ep r with
+  | EpIntrospect => match generic_class (p_cfg P) (p_expired P) (r_tok r) with Some (MTok KAccess) | Some (MTok KRefresh) => true | _ => false end
+  | EpRevoke => match generic_class (p_cfg P) (p_expired P) (r_tok r) with Some (MTok _) => true | _ => false end
+  | _ => true
+  end.
+(* process_request: the session the value THIS request carries stands for; every endpoint but userinfo (whose
+   client credential is the token itself) serves the client the token was minted for only *)
+Definition tprocess (P : prov) (r : treq) : tanswer :=
+  match slot_session (p_cfg P) (p_expired P) (p_db P) (ep_slot (r_ep r)) (r_tok r) with
+  | Some s =>
+      match r_ep r with
+      | EpUserinfo => TSession s
+      | _ => if str_eqb (s_client s) (r_by r) && ep_class_ok P r then TSession s else TRefused
+      end
+  | None => TRefused
+  end.
+(* parse_request: userinfo authenticates the bearer credential (slot SBearer), the token endpoint's
+   post_parse_request looks the code / refresh token up; introspection and revocation check the secret only *)
+Definition tparse (P : prov) (r : treq) : bool :=
+  match r_ep r with
+  | EpUserinfo => match slot_session (p_cfg P) (p_expired P) (p_db P) SBearer (r_tok r) with Some _ => true | None => false end
+  | EpRefresh | EpCode => match slot_session (p_cfg P) (p_expired P) (p_db P) (ep_slot (r_ep r)) (r_tok r) with Some _ => true | None => false end
+  | _ => true
+  end.
+(* the answer to a request that is alone at the provider *)
+Definition tanswer1 (P : prov) (r : treq) : tanswer := if tparse P r then tprocess P r else TRefused.
+
+(* ---- an endpoint object: its state and its calls ---- *)
+Record tendpoint (S : Type) := mk_tendpoint {
+  te_init : S;
+  te_parse : S -> treq -> S * bool;            (* parse_request: accepted? *)
+  te_process : S -> treq -> S * tanswer;       (* process_request *)
+  te_respond : S -> treq -> tanswer -> S * tanswer }.   (* do_response *)
+Arguments te_init {S}. Arguments te_parse {S}. Arguments te_process {S}. Arguments te_respond {S}.
+(* the faithful model: no state *)
+Definition tep_model (P : prov) : tendpoint unit :=
+  mk_tendpoint unit tt (fun _ r => (tt, tparse P r)) (fun _ r => (tt, tprocess P r)) (fun _ _ a => (tt, a)).
+(* an endpoint object that does keep something between calls: what parse_request resolved, used by the next
+   process_request whatever request that belongs to (for the refuted variant in Props/C04.v) *)
+Definition tep_remember (P : prov) : tendpoint (option tanswer) :=
+  mk_tendpoint (option tanswer) None
+    (fun s r => if tparse P r then (Some (tprocess P r), true) else (s, false))
+    (fun s r => (None, match s with Some a => a | None => tprocess P r end))
+    (fun s _ a => (s, a)).
+
+(* ---- the host: requests by number, what it keeps per request between calls ---- *)
+Inductive tevent := TvParse (i : nat) | TvProcess (i : nat) | TvRespond (i : nat).
+Inductive tslot := TsParsed | TsAnswer (a : tanswer).
+Definition ttable := list (nat * tslot).
+Fixpoint ttget (i : nat) (t : ttable) : option tslot :=
+  match t with [] => None | (j, s) :: r => if Nat.eqb i j then Some s else ttget i r end.
+Fixpoint ttdel (i : nat) (t : ttable) : ttable :=
+  match t with [] => [] | (j, s) :: r => if Nat.eqb i j then ttdel i r else (j, s) :: ttdel i r end.
+Definition ttset (i : nat) (s : tslot) (t : ttable) : ttable := (i, s) :: ttdel i t.
+(* one call; returns the new state, the new table, and what is handed out (request number, answer) *)
+Definition tstep {S} (E : tendpoint S) (reqs : list treq) (st : S * ttable) (ev : tevent) : (S * ttable) * list (nat * tanswer) :=
+  let '(s, t) := st in
+  match ev with
+  | TvParse i =>
+      match nth_error reqs i with
+      | None => (st, [])
+      | Some r => let '(s', ok) := te_parse E s r in
+                  if ok then ((s', ttset i TsParsed t), []) else ((s', ttdel i t), [(i, TRefused)])
+      end
+  | TvProcess i =>
+      match nth_error reqs i, ttget i t with
+      | Some r, Some TsParsed => let '(s', a) := te_process E s r in ((s', ttset i (TsAnswer a) t), [])
+      | _, _ => (st, [])
+      end
+  | TvRespond i =>
+      match nth_error reqs i, ttget i t with
+      | Some r, Some (TsAnswer a) => let '(s', b) := te_respond E s r a in ((s', ttdel i t), [(i, b)])
+      | _, _ => (st, [])
+      end
+  end.
+Fixpoint trun_from {S} (E : tendpoint S) (reqs : list treq) (st : S * ttable) (sched : list tevent) : list (nat * tanswer) :=
+  match sched with
+  | [] => []
+  | ev :: rest => let '(st', out) := tstep E reqs st ev in out ++ trun_from E reqs st' rest
+  end.
+Definition run_tflight {S} (E : tendpoint S) (reqs : list treq) (sched : list tevent) : list (nat * tanswer) :=
+  trun_from E reqs (te_init E, []) sched.
+(* the same request, alone at a fresh endpoint *)
+Definition town_answer {S} (E : tendpoint S) (r : treq) : tanswer :=
+  let '(s1, ok) := te_parse E (te_init E) r in
+  if ok then let '(s2, a) := te_process E s1 r in snd (te_respond E s2 r a) else TRefused.
+
+(* ---- checker for the generated flights ---- *)
+Inductive tokspec := TMinted (m : nat) (sid : pystr) | TForeign (m : nat) (foreign_keys : bool) | TGarbage.
+Record tspec := mkTspec { ts_ep : nat; ts_tok : tokspec; ts_by : pystr }.
+Definition tep_of (n : nat) : tep :=
+  match n with 0%nat => EpUserinfo | 1%nat => EpIntrospect | 2%nat => EpRevoke | 3%nat => EpRefresh | _ => EpCode end.
+Definition tfcase := ((nat * nat * nat * bool * bool) * list (pystr * sess) * list tspec * list tevent * list (nat * option nat))%type.
+Definition treq_of (c : nat * nat * nat * bool * bool) (q : tspec) : treq :=
+  let '(kc, ka, kr, distinct, idt_own_key) := c in
+  let cfg := cfg_of kc ka kr distinct idt_own_key 0%nat in
+  let t := match ts_tok q with
+           | TMinted m sid => mint cfg (mclass_of m) (PS "n") (PS "rnd") sid (PS "99")
+           | TForeign m fk => mint (cfg_of kc ka kr distinct idt_own_key (if fk then 100%nat else 0%nat)) (mclass_of m)
+                                   (PS "n") (PS "rnd") (PS "sid of the other instance") (PS "99")
+           | TGarbage => Atom (PS "garbage")
+           end in
+  mkTreq (tep_of (ts_ep q)) t (ts_by q).
+Definition prov_of (c : nat * nat * nat * bool * bool) (db : list (pystr * sess)) : prov :=
+  let '(kc, ka, kr, distinct, idt_own_key) := c in
+  mkProv (cfg_of kc ka kr distinct idt_own_key 0%nat) (fun _ => false) db.
+Definition tanswer_id (a : tanswer) : option nat := match a with TRefused => None | TSession s => Some (s_id s) end.
+Fixpoint tfind (i : nat) (l : list (nat * tanswer)) : option tanswer :=
+  match l with [] => None | (j, a) :: r => if Nat.eqb i j then Some a else tfind i r end.
+Definition diag_tflight (c : tfcase) : list (nat * option nat) :=
+  let '(k, db, specs, sched, obs) := c in
+  map (fun x => (fst x, tanswer_id (snd x))) (run_tflight (tep_model (prov_of k db)) (map (treq_of k) specs) sched).
+Definition chk_tflight (c : tfcase) : bool :=
+  let '(k, db, specs, sched, obs) := c in
+  let P := prov_of k db in
+  let reqs := map (treq_of k) specs in
+  let out := run_tflight (tep_model P) reqs sched in
+  Nat.eqb (length out) (length obs)
+  (* what the machine hands out for request i is what the real endpoint handed out for it ... *)
+  && forallb (fun o => match tfind (fst o) out with Some a => option_eqb Nat.eqb (tanswer_id a) (snd o) | None => false end) obs
+  (* ... and, independently of the machine, the answer of that request alone *)
+  && forallb (fun o => match nth_error reqs (fst o) with Some r => option_eqb Nat.eqb (tanswer_id (tanswer1 P r)) (snd o) | None => false end) obs.
